@@ -121,6 +121,9 @@ def detect(ids, tier="quick", runs=None):
     for sid in ids:
         d = os.path.join(SEEDED, sid)
         meta = json.load(open(os.path.join(d, "meta.json")))
+        if meta.get("superseded"):
+            print("%-8s superseded by a later repair of /repo (kept for the record)" % sid)
+            continue
         props = meta.get("checked_by") or [meta["property"]]
         with Worktree() as wt:
             r = sh(["git", "-C", wt, "apply", "--whitespace=nowarn", os.path.join(d, "patch.diff")])
